@@ -87,6 +87,34 @@ def gen_expansion(rng, fmt, n, decreasing):
     return out
 
 
+def gen_difference(rng, fmt):
+    """a ++ (-b) as `subtract` builds it: a, b non-overlapping decreasing expansions that share their leading terms (exact
+    cancellation at the head), different tails"""
+    p, ew, w = fpx.FMT[fmt]
+    emax_f = (1 << ew) - 2
+    sign = 1 << (w - 1)
+
+    def normalised(n, ef):
+        o = []
+        for _ in range(n):
+            if ef < 1:
+                break
+            o.append(fpx.pattern(fmt, rng.getrandbits(1), ef, fpx.directed_patterns(rng, fmt, 1)[0] & ((1 << (p - 1)) - 1)))
+            ef -= p + rng.randrange(1, 4)
+        return o
+
+    ef0 = rng.randrange(4 * p + 4, emax_f - 4) if emax_f > 5 * p + 8 else rng.randrange(2 * p, emax_f - 2)
+    a = normalised(rng.choice([2, 3, 3]), ef0)
+    k = rng.randrange(1, len(a) + 1)
+    if k < len(a):
+        ef_tail = ((a[k] & (sign - 1)) >> (p - 1)) - rng.randrange(0, 3)
+    else:
+        ef_tail = ((a[-1] & (sign - 1)) >> (p - 1)) - p - rng.randrange(1, 4)
+    b = a[:k] + normalised(rng.choice([1, 2]), ef_tail)
+    b = b[:3]
+    return a + [x ^ sign for x in b]
+
+
 def fr(b, fmt):
     return fpx.to_fraction(b, fmt)
 
@@ -209,6 +237,12 @@ def run(ctx):
         fast = rng.random() < 0.3
         functional = rng.random() < 0.5
         bits = gen_expansion(rng, fmt, n, decreasing=fast)
+        is_diff = False
+        if not fast and rng.random() < 0.15:
+            bits = gen_difference(rng, fmt)
+            n = len(bits)
+            is_diff = True
+            ctx.count("stream:difference-of-normalised-expansions")
         xs = [fr(b, fmt) for b in bits]
         try:
             out = real_renorm(fmt, bits, functional, fast)
@@ -240,7 +274,7 @@ def run(ctx):
             continue
         nf = normal_form(ys, fmt)
         nzx = [abs(x) for x in xs if x != 0]
-        sorted_input = all(a >= b for a, b in zip(nzx, nzx[1:]))
+        sorted_input = all(a >= b for a, b in zip(nzx, nzx[1:])) or is_diff   # a ++ (-b): the use inside `subtract`
         if not sorted_input:
             ctx.count("normal-form-clause-skipped(unsorted input: outside the documented precondition)")
         if nf is not None and sorted_input:
